@@ -70,6 +70,13 @@ TABLE = ('len int float str list dict startswith endswith lower upper strip repl
 
 def _exerciser_prog(r, names):
     from .. import exerciser
+    if r.random() < 0.2:
+        # the result of a search is changed in place as an unbound temporary; the same search may come again later
+        pat = r.choice(['\\d+', '[a-z]', '(\\w)(\\d)', 'b'])
+        subj = r.choice(['a1 b22 c', 'ab12', 'x9 y8'])
+        call = ['call', r.choice(['match_all', 'match_groups']), [['str', subj], ['str', pat]], gen.sugar(r, 2)]
+        return ['block', [r.choice([['call', 'push', [call, ['num', '99']], gen.sugar(r, 2)], ['call', 'pop', [call], gen.sugar(r, 1)],
+                                    ['call', 'insert', [call, ['num', '0'], ['str', 'z']], 'plain'], call, call])]]
     t = None
     for d in range(r.choice([1, 2, 2, 3])):
         nm = r.choice(TABLE)
